@@ -323,10 +323,11 @@ def p_argmin(itp, name, args, kw, node, st):
         for x in vals:
             if isinstance(x, sp.Basic) and any(str(fs) in Aff.BOUNDS for fs in x.free_symbols):
                 variant = True      # the scaling type depends on the element index
-    if variant:
-        itp.conflict('variant-branch', 's', 'argmin/argmax over values that do not share one scaling type', node)
+    t = taint_of(v)
+    if variant and not itp.in_assert:
+        t = t | frozenset([itp.new_variant('s', 'argmin/argmax over values that do not share one scaling type', node)])
     USED.add('argmin/argmax over elements sharing one scaling type is scale-invariant')
-    return IntV(None, taint_of(v))
+    return IntV(None, t)
 
 
 @prim('builtins.list', 'builtins.tuple', 'builtins.sorted', 'builtins.reversed', 'numpy.flipud', 'numpy.fliplr',
@@ -722,7 +723,6 @@ def p_where(itp, name, args, kw, node, st):
         return r
     idx = Num(zero_deg(), (None,), False, taint=taints(args[0]))
     idx.role = 'mask'
-    idx.variant = getattr(m, 'variant', False) if m is not None else False
     return Tup([idx])
 
 
